@@ -25,6 +25,9 @@ pub struct Case {
   pub mode: String,
   pub limit: usize,
   pub candidate_size: Option<usize>,
+  /// a leading sort key (single-valued fast field, order) in front of `_score desc`
+  #[serde(default)]
+  pub lead: Option<(String, String)>,
 }
 
 pub struct C19;
@@ -32,7 +35,7 @@ pub struct C19;
 pub const SIG_TAIL: &str = "rescore-sorts-unrescored-hits-into-the-window-after-drops";
 
 /// rescore queries whose every match contains a scored term (so a standalone search finds all of them)
-fn rescore_query() -> BoxedStrategy<Value> {
+pub fn rescore_query() -> BoxedStrategy<Value> {
   let word = select(scoreworld::VOCAB[..6].to_vec());
   let term = (select(vec!["body", "title"]), word.clone(), proptest::option::of(select(vec![0.5f64, 2.0, 3.0]))).prop_map(|(f, w, b)| {
     let mut v = json!({"type": "term", "field": f, "value": w});
@@ -64,7 +67,7 @@ impl Property for C19 {
   type Case = Case;
   const ID: &'static str = "C19";
   fn rule() -> String {
-    "cases = corpus (10-80 docs, 1-4 segments), an initial scored query, a rescore query (term / query_string / dis_max / bool / script_score, optionally wrapped in function_score with min_score so that documents are dropped), window_size 0..limit+5, all five score modes, limit 1..15 and a candidate_size that usually covers the window; default score sort. Expected response = window survivors (first min(window,|R|) hits of the same request without rescore) with score combine(mode, orig, standalone rescore score) when they match the rescore query, unchanged when they do not, dropped when min_score rejects them, ordered by the new score, followed by the untouched tail, truncated to limit. Non-trivial = 0 < window < number of candidates and the rescoring changes the order; distinct = hash of the request and corpus size".into()
+    "cases = corpus (10-80 docs, 1-4 segments), an initial scored query, a rescore query (term / query_string / dis_max / bool / script_score, optionally wrapped in function_score with min_score so that documents are dropped), window_size 0..limit+5, all five score modes, limit 1..15 and a candidate_size that usually covers the window; default score sort or (35%) a leading single-valued fast key (cat / rank, asc / desc) in front of _score desc - the window is then re-sorted within each run of equal leading values. Expected response = window survivors (first min(window,|R|) hits of the same request without rescore) with score combine(mode, orig, standalone rescore score) when they match the rescore query, unchanged when they do not, dropped when min_score rejects them, ordered by the new score, followed by the untouched tail, truncated to limit. Non-trivial = 0 < window < number of candidates and the rescoring changes the order; distinct = hash of the request and corpus size".into()
   }
   fn assumptions() -> Vec<String> {
     vec![
@@ -73,7 +76,7 @@ impl Property for C19 {
     ]
   }
   fn plan(tier: Tier) -> Plan {
-    Plan { workers: 16, cases_per_worker: tier.pick(400, 8000) }
+    Plan { workers: 16, cases_per_worker: tier.pick(1500, 100000) }
   }
   fn shrink_iters() -> u32 {
     800
@@ -84,10 +87,10 @@ impl Property for C19 {
     g.phrases = false;
     let w = scoreworld::world(WorldOpts { min_docs: 10, max_docs: 80, max_commits: 4, deletes: true, ties: false, vocab: 6 });
     let query = prop_oneof![1 => Just(json!({"type": "match_all"})), 6 => g.tree(2)];
-    (w, query, rescore_query(), proptest::option::weighted(0.35, select(vec![0.2f64, 0.5, 1.0, 2.0])), 0usize..20, select(vec!["total", "multiply", "sum", "max", "min"]), 1usize..15, proptest::option::weighted(0.7, 5usize..40))
-      .prop_map(|(world, query, rescore_query, min_score, window, mode, limit, candidate_size)| {
+    (w, query, rescore_query(), proptest::option::weighted(0.35, select(vec![0.2f64, 0.5, 1.0, 2.0])), 0usize..20, select(vec!["total", "multiply", "sum", "max", "min"]), 1usize..15, proptest::option::weighted(0.7, 5usize..40), proptest::option::weighted(0.35, (select(vec!["cat", "rank"]), select(vec!["asc", "desc"]))))
+      .prop_map(|(world, query, rescore_query, min_score, window, mode, limit, candidate_size, lead)| {
         let window = window.min(limit + 5);
-        Case { world, query, rescore_query, min_score, window, mode: mode.to_string(), limit, candidate_size }
+        Case { world, query, rescore_query, min_score, window, mode: mode.to_string(), limit, candidate_size, lead: lead.map(|(f, o)| (f.to_string(), o.to_string())) }
       })
       .boxed()
   }
@@ -109,7 +112,11 @@ impl Property for C19 {
       }
     };
     let n = case.world.docs.len();
-    let base = json!({"query": case.query, "limit": n + 5, "execution": "bm25"});
+    let mut base = json!({"query": case.query, "limit": n + 5, "execution": "bm25"});
+    if let Some((f, o)) = &case.lead {
+      base["sort"] = json!([{"field": f, "order": o}, {"field": "_score", "order": "desc"}]);
+      out.class("leading-sort-key");
+    }
     let r = match sut::search(&reader, base.clone()) {
       Ok(r) => hits(&r),
       Err(_) => {
@@ -117,6 +124,25 @@ impl Property for C19 {
         return out;
       }
     };
+    // with a leading sort key the ranking is grouped by its value (equal values are contiguous in the ranking
+    // without rescore); the window is re-sorted group by group. Without one there is a single group.
+    let mut group: BTreeMap<String, usize> = BTreeMap::new();
+    if let Some((f, _)) = &case.lead {
+      let value_of = |id: &str| built.live.iter().find(|l| l.0 == id).map(|l| l.1.get(f).cloned().unwrap_or(Value::Null)).unwrap_or(Value::Null);
+      let mut g = 0usize;
+      let mut prev: Option<Value> = None;
+      for h in r.iter() {
+        let v = value_of(&h.id);
+        if let Some(p) = &prev {
+          if *p != v {
+            g += 1;
+          }
+        }
+        prev = Some(v);
+        group.insert(h.id.clone(), g);
+      }
+    }
+    let by_plan = |a: &H, b: &H| group.get(&a.id).copied().unwrap_or(0).cmp(&group.get(&b.id).copied().unwrap_or(0)).then(b.score.partial_cmp(&a.score).unwrap_or(std::cmp::Ordering::Equal)).then_with(|| a.id.cmp(&b.id));
     let rq_inner = case.rescore_query.clone();
     let rq = match case.min_score {
       Some(m) => json!({"type": "function_score", "query": rq_inner, "functions": [], "min_score": m}),
@@ -173,7 +199,7 @@ impl Property for C19 {
       }
     }
     // by new score, ties by (segment, document) order == id order in this corpus
-    window.sort_by(|a, b| b.score.partial_cmp(&a.score).unwrap_or(std::cmp::Ordering::Equal).then_with(|| a.id.cmp(&b.id)));
+    window.sort_by(by_plan);
     // Expected: the sorted survivors, then the untouched tail. Beyond the guaranteed pool
     // (the first min_pool hits of R) the engine may or may not hold further candidates, so the tail
     // is judged as: first the guaranteed tail R[w..min_pool] in order, then any in-order selection
@@ -224,7 +250,7 @@ impl Property for C19 {
         let mut engine: Vec<H> = window.clone();
         engine.extend(r.iter().skip(w).cloned());
         let k = case.window.min(engine.len());
-        engine[..k].sort_by(|a, b| b.score.partial_cmp(&a.score).unwrap_or(std::cmp::Ordering::Equal).then_with(|| a.id.cmp(&b.id)));
+        engine[..k].sort_by(by_plan);
         engine.truncate(case.limit);
         let same = engine.len() == got.len() && engine.iter().zip(got.iter()).all(|(a, b)| close(a.score, b.score));
         if same {
